@@ -44,7 +44,8 @@ type ExtTypeNotFunc struct{}
 `
 
 var extSelPatterns = []string{"ExtAToB", "extAToC", "ExtTwoSources", "extNoResult", "ExtVarNotFunc", "ExtGeneric", "Nope", "Ext.*", "ext.*", "(e|E)xt.*",
-	".*ToB", ".*To[A-Z]", "Ext|ExtAToB", "ExtAToB|Ext", "Nope.*", "Ext(Two|Three).*", "extFuncVar", ".*", "[eE]xt[A-C]To[A-C]", "ExtTypeNotFunc"}
+	".*ToB", ".*To[A-Z]", "Ext|ExtAToB", "ExtAToB|Ext", "Nope.*", "Ext(Two|Three).*", "extFuncVar", ".*", "[eE]xt[A-C]To[A-C]", "ExtTypeNotFunc",
+	`.*\QToB`, `Ext\QAToB`, `.*\QToB\E`, `(?i)extatob`, `(Ext)(A)(To)(B)`, `Ext.{4}`}
 
 func runExtSel(e *env) error {
 	e.rep.Rule += "; extend selection: converters naming extend functions literally or by " + fmt.Sprint(len(extSelPatterns)) + " regular expressions over a package with exported/unexported, usable/unusable, generic and non-function objects, from interface converters and from variables blocks: the extend list of the real configuration stage vs Gv.Signature.selectExtend over the package scope"
